@@ -24,10 +24,14 @@ def run(ctx):
     uni = Universe()
     traces = []
     extra = [bytes(ctx.rng.randrange(256) for _ in range(ctx.rng.randrange(1, 90))) for _ in range(40 if thorough else 6)]
+    # a sweep over input lengths (block boundaries of SHA-256/HMAC: 55/56, 63/64/65, 119/120, 127/128/129, 255/256)
+    lens = list(range(0, 140)) + [191, 192, 193, 255, 256, 257, 511, 512, 513, 1000] if thorough else \
+        [k for k in range(0, 140) if k % 5 == ctx.seed % 5 or k in (31, 32, 33, 47, 48, 49, 55, 56, 63, 64, 65, 119, 120, 127, 128, 129)] + [255, 256, 257]
+    sweep = [bytes((7 * k + j) % 251 for j in range(k)) for k in lens]
     inputs = PWS + extra
     for g in (list(TOY_INT) + list(TOY_CURVES) if thorough else ["i11", "i23", "i263", "i32771", "ed37", "ed109"]):
         uni.group(g)
-        ins = inputs + [b"s%d" % k for k in range(40 if thorough else 12)]
+        ins = inputs + [b"s%d" % k for k in range(40 if thorough else 12)] + (sweep if g in ("i23", "ed37") or thorough else [])
         for i in range(0, len(ins), 2):          # short traces: at most 2 possible F7 events each (error cap is 5)
             t = Trace("derive/%s/%d" % (g, i), uni)
             for x in ins[i:i + 2]:
@@ -36,7 +40,7 @@ def run(ctx):
             traces.append(t.to_json())
     for ps, g in [("PEd25519", "Ed25519"), ("P1024", "I1024"), ("P2048", "I2048"), ("P3072", "I3072")]:
         uni.paramset(ps)
-        ins = inputs if thorough else inputs[:12] + extra[:2]
+        ins = (inputs + sweep) if thorough else inputs[:12] + extra[:2] + inputs[19:35:3] + sweep[ctx.seed % 4::4]
         for i in range(0, len(ins), 4):
             t = Trace("derive/%s/%d" % (g, i), uni)
             for x in ins[i:i + 4]:
